@@ -49,7 +49,7 @@ var provGroups = []struct {
 	pkgs  []string
 }{
 	{"R01.12", []string{"C01", "C02", "C03", "C04", "C05", "C06", "C07", "C08", "C10"}, []string{"pkg/blobstore/local"}},
-	{"R09.8", []string{"C09", "C15", "C16"}, []string{"pkg/blobstore/buffer"}},
+	{"R09.8", []string{"C09", "C15", "C16", "C10", "C01", "C08", "C04"}, []string{"pkg/blobstore/buffer"}},
 	{"R11.8", []string{"C11"}, []string{"pkg/blobstore/mirrored"}},
 	{"R12.10", []string{"C12"}, []string{"pkg/blobstore/sharding"}},
 	{"R13.8", []string{"C13"}, []string{"pkg/blobstore/completenesschecking"}},
@@ -71,6 +71,7 @@ func init() {
 }
 
 type provWalker struct {
+	top   ssa.Value       // the value whose provenance is asked for (conversions stripped)
 	use   ssa.Instruction // the call whose inputs are being traced
 	fn    *ssa.Function
 	roots map[string]bool
@@ -128,7 +129,10 @@ func (w *provWalker) walk(v ssa.Value, depth int) {
 		case constant.Bool:
 			w.roots["b:"+x.Value.String()] = true
 		case constant.Int:
-			if k, ok := constant.Int64Val(x.Value); ok && (k > 1 || k < -1) {
+			// an integer that is the whole value (a status code, a size limit passed
+			// as such) is an input; one that is an operand of arithmetic on other
+			// inputs (end-1 vs. end-2+1) is how a computation is spelled
+			if k, ok := constant.Int64Val(x.Value); ok && w.top == ssa.Value(x) {
 				w.roots[fmt.Sprintf("k:%d", k)] = true
 			}
 		}
@@ -266,7 +270,7 @@ func (w *provWalker) walk(v ssa.Value, depth int) {
 }
 
 func provOf(fn *ssa.Function, use ssa.Instruction, v ssa.Value) string {
-	w := &provWalker{fn: fn, use: use, roots: map[string]bool{}, seen: map[ssa.Value]bool{}}
+	w := &provWalker{fn: fn, use: use, top: stripConv(v), roots: map[string]bool{}, seen: map[ssa.Value]bool{}}
 	w.walk(v, 0)
 	var rs []string
 	for r := range w.roots {
@@ -331,7 +335,15 @@ func collectProv(p *Program, pkgs []string) map[string]map[string][]provSite {
 							break
 						}
 						if bo, ok := cond.(*ssa.BinOp); ok {
+							// which quantities are compared – not against which small number
+							// (loop bounds and counters are respelled freely)
 							a, b := provOf(g, ins, bo.X), provOf(g, ins, bo.Y)
+							if _, isC := stripConv(bo.X).(*ssa.Const); isC && isIntVal(bo.X) {
+								a = ""
+							}
+							if _, isC := stripConv(bo.Y).(*ssa.Const); isC && isIntVal(bo.Y) {
+								b = ""
+							}
 							if b < a {
 								a, b = b, a
 							}
